@@ -240,7 +240,23 @@ XalanSourceTreeDocument::getFirstChild() const
 XalanNode*
 XalanSourceTreeDocument::getLastChild() const
 {
-    return m_documentElement;
+    // The document element need not be the last child: comments and
+    // processing instructions may follow it.
+    XalanNode*  theLastChild = m_firstChild;
+
+    if (theLastChild != 0)
+    {
+        XalanNode*  theNext = theLastChild->getNextSibling();
+
+        while (theNext != 0)
+        {
+            theLastChild = theNext;
+
+            theNext = theLastChild->getNextSibling();
+        }
+    }
+
+    return theLastChild;
 }
 
 
